@@ -29,6 +29,91 @@ impl Dd for Pooled<St> {
     }
 }
 
+/// real SimpleCache behind a wrapper that remembers which keys were written
+pub struct RecCache {
+    pub inner: SimpleCache<St>,
+    pub log: std::sync::Mutex<Vec<(St, usize)>>,
+}
+impl RecCache {
+    pub fn new(t: &Table) -> Self {
+        let mut inner = SimpleCache::<St>::default();
+        inner.initialize(t);
+        RecCache { inner, log: std::sync::Mutex::new(vec![]) }
+    }
+    pub fn keys(&self) -> Vec<(St, usize)> {
+        let mut v = self.log.lock().unwrap().clone();
+        v.sort();
+        v.dedup();
+        v
+    }
+}
+impl Cache for RecCache {
+    type State = St;
+    fn initialize(&mut self, _: &dyn Problem<State = St>) {}
+    fn get_threshold(&self, s: &St, d: usize) -> Option<Threshold> {
+        self.inner.get_threshold(s, d)
+    }
+    fn update_threshold(&self, s: Arc<St>, d: usize, v: Cost, e: bool) {
+        self.log.lock().unwrap().push((*s, d));
+        self.inner.update_threshold(s, d, v, e)
+    }
+    fn clear_layer(&self, d: usize) {
+        self.inner.clear_layer(d)
+    }
+    fn clear(&self) {
+        self.inner.clear()
+    }
+}
+
+/// C09 inductive invariant of the threshold cache (DESIGN.md 5/C09): for every recorded threshold
+/// (s, d, theta) and every arc s --a--> w of the exact system, an arrival at s with value <= theta
+/// is harmless: its continuation through w is (2) itself below a recorded threshold of (w, d+1), or
+/// (3) dominated by an open sub-problem (w, d+1) with at least that value, or (4) cannot beat the
+/// incumbent whatever the completion.
+pub fn check_thresholds(t: &Table, cache: &RecCache, open: &[SubProblem<St>], lb_after: Cost) {
+    for (s, d) in cache.keys() {
+        let th = match cache.inner.get_threshold(&s, d) {
+            Some(x) => x,
+            None => continue,
+        };
+        note("threshold_checked");
+        // (0) the state itself is still open with at least that value: an arrival <= theta is dominated by it
+        let mut self_open = Cond::FALSE;
+        for o in open.iter().filter(|o| *o.state == s && o.depth == d) {
+            self_open = self_open.or(th.value.le_c(o.value));
+        }
+        if d >= t.sh.n {
+            oblige("C09:threshold-sound-terminal", th.value.le_c(lb_after));
+            continue;
+        }
+        for a in t.domain(d, s.m) {
+            let wm = t.trans(d, s.m, a);
+            if wm == 0 {
+                continue;
+            }
+            let ws = t.st(d + 1, wm);
+            let arrival = th.value.sat_plus(t.arc_cost(d, s.m, a, wm));
+            let mut ok = self_open;
+            if let Some(tw) = cache.inner.get_threshold(&ws, d + 1) {
+                ok = ok.or(arrival.le_c(tw.value));
+            }
+            for o in open.iter().filter(|o| *o.state == ws && o.depth == d + 1) {
+                ok = ok.or(arrival.le_c(o.value));
+            }
+            match max_of(enumerate(t, d + 1, wm).iter().map(|q| q.value)) {
+                None => {} // no completion at all: nothing can be lost
+                Some(hstar) => {
+                    ok = ok.or(arrival.sat_plus(hstar).le_c(lb_after));
+                    if std::env::var("SYMX_TRACE").is_ok() {
+                        eprintln!("  key ({:?},{}) theta={:?}/{} arc d={} -> {:?} arrival={:?} theta_w={:?} open={:?} hstar={:?} lb={:?} ok={}", s, d, th.value, th.explored, a, ws, arrival, cache.inner.get_threshold(&ws, d + 1), open.iter().filter(|o| *o.state == ws && o.depth == d + 1).map(|o| o.value).collect::<Vec<_>>(), hstar, lb_after, ok.v);
+                    }
+                    oblige("C09:threshold-sound", ok);
+                }
+            }
+        }
+    }
+}
+
 #[derive(Clone, Debug)]
 pub struct RootSel {
     pub layer: usize,
@@ -53,7 +138,9 @@ pub fn reachable_roots(t: &Table) -> Vec<RootSel> {
                     continue;
                 }
                 let mut p = cur.prefix.clone();
-                if d < t.sh.d || true {
+                // the neutral default decision is implicit (a long arc) only when NO member of the
+                // mask is impacted; a partially impacted mask takes it as an ordinary decision
+                if d < t.sh.d || t.impacted_mask(l, cur.mask) {
                     p.push((t.sh.order[l], d));
                 }
                 out.push(RootSel { layer: l + 1, mask: dst, prefix: p });
@@ -102,9 +189,10 @@ pub fn body<D: Dd>(c: &DdCase) {
     let rs = roots[c.root % roots.len()].clone();
     let (l0, m0) = (rs.layer, rs.mask);
     let prefix = decs(&rs.prefix);
-    // neutral default decisions are not recorded in paths (that is what a long arc is)
-    let prefix: Vec<Decision> = prefix.into_iter().filter(|d| (d.value.conc() as usize) < c.shape.d).collect();
-    let (prefix_val, _, _) = replay(&t, &prefix, Some(l0)).expect("harness: prefix must replay");
+    let (prefix_val, _, _) = match replay(&t, &prefix, Some(l0)) {
+        Ok(x) => x,
+        Err(e) => panic!("SYMX-INTERNAL: harness: prefix must replay: {}", e),
+    };
     let root_sp = SubProblem { state: Arc::new(t.st(l0, m0)), value: prefix_val, path: prefix.clone(), ub: Cost::cmax(), depth: l0 };
     let lb = if c.sym_lb { Cost::input("L", -10_000_000, 10_000_000) } else { Cost::cmin() };
     let completions = enumerate(&t, l0, m0);
@@ -113,6 +201,9 @@ pub fn body<D: Dd>(c: &DdCase) {
     let cutoff = PollCutoff::never();
     let cache = EmptyCache::new();
     let dominance = EmptyDominanceChecker::default();
+    if want(c, "C09") && c.props.len() == 1 {
+        return body_c09::<D>(c, &t, &root_sp, lb, l0);
+    }
 
     let mut dd = D::default();
     // ---- history: earlier compilations on the same object (concrete costs: no forks)
@@ -131,8 +222,11 @@ pub fn body<D: Dd>(c: &DdCase) {
         let mut r = Rng(c.hist_seed ^ 0x77);
         for _ in 0..c.history {
             let hr = hroots[r.below(hroots.len() as u64) as usize].clone();
-            let hp: Vec<Decision> = decs(&hr.prefix).into_iter().filter(|d| (d.value.conc() as usize) < hs.d).collect();
-            let (hv, _, _) = replay(&th, &hp, Some(hr.layer)).unwrap();
+            let hp: Vec<Decision> = decs(&hr.prefix);
+            let (hv, _, _) = match replay(&th, &hp, Some(hr.layer)) {
+                Ok(x) => x,
+                Err(e) => panic!("SYMX-INTERNAL: harness: history prefix must replay: {}", e),
+            };
             let hsp = SubProblem { state: Arc::new(th.st(hr.layer, hr.mask)), value: hv, path: hp, ub: Cost::cmax(), depth: hr.layer };
             let ct = match r.below(3) {
                 0 => CompilationType::Relaxed,
@@ -340,5 +434,60 @@ pub fn body<D: Dd>(c: &DdCase) {
     // ---- C20: visualisation
     if want(c, "C20") {
         viz::check(&dd, &t, c.viz_all, bv.is_some());
+    }
+}
+
+/// C09 at diagram level: the solver's step (restricted, then relaxed compilation with the real
+/// SimpleCache, cut-set enqueued) replayed with everything visible, followed by a second step on
+/// one of the cut-set nodes; the threshold invariant is checked after each step.
+fn body_c09<D: Dd>(c: &DdCase, t: &Table, root_sp: &SubProblem<St>, lb: Cost, _l0: usize) {
+    if c.shape.impacted.is_some() {
+        return;
+    }
+    let cache = RecCache::new(t);
+    let ranking = ByMask(c.rev_rank);
+    let cutoff = PollCutoff::never();
+    let dominance = EmptyDominanceChecker::default();
+    let mut dd = D::default();
+    let mut best_lb = lb;
+    let mut open: Vec<SubProblem<St>> = vec![];
+    let mut r = Rng(c.hist_seed ^ 0xc09);
+    let mut node = root_sp.clone();
+    for step in 0..(1 + c.history.min(2)) {
+        // as SequentialSolver::process_one_node does
+        t.reset_monitor();
+        let inp = CompilationInput { comp_type: CompilationType::Restricted, problem: t, relaxation: t, ranking: &ranking, cutoff: &cutoff, max_width: c.width, residual: &node, best_lb, cache: &cache, dominance: &dominance };
+        let res = dd.compile(&inp).expect("no cutoff");
+        if let Some(v) = dd.best_exact_value() {
+            best_lb = best_lb.mx(v);
+        }
+        if !res.is_exact {
+            t.reset_monitor();
+            let inp = CompilationInput { comp_type: CompilationType::Relaxed, problem: t, relaxation: t, ranking: &ranking, cutoff: &cutoff, max_width: c.width, residual: &node, best_lb, cache: &cache, dominance: &dominance };
+            let res = dd.compile(&inp).expect("no cutoff");
+            if let Some(v) = dd.best_exact_value() {
+                best_lb = best_lb.mx(v);
+            }
+            if !res.is_exact {
+                dd.drain_cutset(|sp| open.push(sp));
+                note("cutset_nonempty");
+            }
+        }
+        if std::env::var("SYMX_TRACE").is_ok() {
+            eprintln!("step {} node=({:?},{}) value={:?} best_lb={:?} open={:?}", step, node.state, node.depth, node.value, best_lb, open.iter().map(|o| (*o.state, o.depth, o.value, o.ub)).collect::<Vec<_>>());
+        }
+        check_thresholds(t, &cache, &open, best_lb);
+        if open.is_empty() || step == c.history.min(2) {
+            break;
+        }
+        // next node: seeded choice among the open ones, skipped when the cache says so (as at pop time)
+        let k = r.below(open.len() as u64) as usize;
+        node = open.remove(k);
+        if !cache.must_explore(&node) {
+            note("skipped_by_cache");
+            check_thresholds(t, &cache, &open, best_lb);
+            break;
+        }
+        note("second_step");
     }
 }
